@@ -9,7 +9,7 @@ use concordium_smart_contract_engine::{
     InterpreterEnergy,
 };
 use serde_json::{json, Value};
-use std::collections::BTreeMap;
+use std::collections::{BTreeMap, HashMap};
 
 type KV = Vec<(Vec<u8>, Vec<u8>)>;
 
@@ -18,7 +18,41 @@ fn kv_of_spec(m: &Value) -> KV {
 }
 fn kv_json(kv: &KV) -> Value { Value::Array(kv.iter().map(|(k, v)| json!([bytes_json(k), bytes_json(v)])).collect()) }
 
-fn handle(h: &Value) -> u64 { (h[0].as_u64().unwrap_or(0) << 32) | h[1].as_u64().unwrap_or(0) }
+/// Handles are opaque: the real value behind a spec handle <<generation, index>> is whatever the
+/// implementation returned when the spec says that handle was issued.  Handles the spec never
+/// issued (stale generations with indices that did not exist, out-of-range indices) are arbitrary
+/// words to the implementation; for those we use the natural packing.
+#[derive(Default)]
+struct Handles {
+    map: HashMap<(u64, u64), u64>,
+}
+
+impl Handles {
+    fn real(&self, h: &Value) -> u64 {
+        let key = (h[0].as_u64().unwrap_or(0), h[1].as_u64().unwrap_or(0));
+        self.map.get(&key).copied().unwrap_or((key.0 << 32) | key.1)
+    }
+
+    /// Compare an option-of-handle result; on "some" bind the spec handle to the real value and
+    /// require that no two spec handles ever share a real value.
+    fn bind(&mut self, exp: &Value, got_raw: u64) -> Result<(), String> {
+        let got = dec_opt(got_raw);
+        if exp[0] != got[0] {
+            return Err(format!("expected {}, got {}", exp, got));
+        }
+        if exp[0] == "some" {
+            let key = (exp[1].as_u64().unwrap_or(0), exp[2].as_u64().unwrap_or(0));
+            if let Some((other, _)) = self.map.iter().find(|(k, v)| **v == got_raw && **k != key) {
+                return Err(format!(
+                    "handle value {:#x} issued for {:?} was already issued for {:?}: an old handle is indistinguishable from the new one",
+                    got_raw, key, other
+                ));
+            }
+            self.map.insert(key, got_raw);
+        }
+        Ok(())
+    }
+}
 
 const ERR: u64 = u64::MAX & !(1u64 << 62);
 
@@ -66,6 +100,8 @@ fn replay_one(steps: &[Value], stats: &mut BTreeMap<String, u64>) -> Result<(), 
     let mut susp: Option<(VerifSuspended, bool)> = None;
     let mut i = 0usize;
     let mut energy = InterpreterEnergy::new(u64::MAX / 2);
+    let mut eh = Handles::default();
+    let mut ih = Handles::default();
     while i < steps.len() {
         let inner = ms.get_inner(&mut store);
         let mut is = match susp.take() {
@@ -87,10 +123,18 @@ fn replay_one(steps: &[Value], stats: &mut BTreeMap<String, u64>) -> Result<(), 
             if a == "resume_same" || a == "resume_updated" {
                 break;
             }
+            let mut bound: Option<Result<(), String>> = None;
             let got: Value = match a {
-                "lookup" => dec_opt(is.verif_lookup_entry(&bytes_of(&st["k"]))),
+                "lookup" => {
+                    let v = is.verif_lookup_entry(&bytes_of(&st["k"]));
+                    bound = Some(eh.bind(&st["r"], v));
+                    dec_opt(v)
+                }
                 "create" => match is.verif_create_entry(&bytes_of(&st["k"])) {
-                    Ok(v) => dec_opt(v),
+                    Ok(v) => {
+                        bound = Some(eh.bind(&st["r"], v));
+                        dec_opt(v)
+                    }
                     Err(e) => json!(["trap", e.to_string()]),
                 },
                 "delete" => match is.verif_delete_entry(&bytes_of(&st["k"])) {
@@ -101,17 +145,24 @@ fn replay_one(steps: &[Value], stats: &mut BTreeMap<String, u64>) -> Result<(), 
                     Ok(v) => json!([v]),
                     Err(e) => json!(["trap", e.to_string()]),
                 },
-                "iterator" => dec_opt(is.verif_iterator(&bytes_of(&st["k"]))),
-                "iternext" => match is.verif_iterator_next(&mut energy, handle(&st["h"])) {
-                    Ok(v) => dec_opt(v),
+                "iterator" => {
+                    let v = is.verif_iterator(&bytes_of(&st["k"]));
+                    bound = Some(ih.bind(&st["r"], v));
+                    dec_opt(v)
+                }
+                "iternext" => match is.verif_iterator_next(&mut energy, ih.real(&st["h"])) {
+                    Ok(v) => {
+                        bound = Some(eh.bind(&st["r"], v));
+                        dec_opt(v)
+                    }
                     Err(e) => json!(["trap", e.to_string()]),
                 },
-                "iterdelete" => match is.verif_iterator_delete(&mut energy, handle(&st["h"])) {
+                "iterdelete" => match is.verif_iterator_delete(&mut energy, ih.real(&st["h"])) {
                     Ok(v) => dec_u32(v),
                     Err(e) => json!(["trap", e.to_string()]),
                 },
                 "iterkey" => {
-                    let h = handle(&st["h"]);
+                    let h = ih.real(&st["h"]);
                     let size = is.verif_iterator_key_size(h);
                     let mut dest = vec![0xeeu8; st["len"].as_u64().unwrap_or(0) as usize];
                     let n = is.verif_iterator_key_read(h, &mut dest, st["off"].as_u64().unwrap_or(0) as u32);
@@ -126,7 +177,7 @@ fn replay_one(steps: &[Value], stats: &mut BTreeMap<String, u64>) -> Result<(), 
                     }
                 }
                 "read" => {
-                    let h = handle(&st["h"]);
+                    let h = eh.real(&st["h"]);
                     let size = is.verif_entry_size(h);
                     let mut dest = vec![0xeeu8; st["len"].as_u64().unwrap_or(0) as usize];
                     let n = is.verif_entry_read(h, &mut dest, st["off"].as_u64().unwrap_or(0) as u32);
@@ -140,19 +191,25 @@ fn replay_one(steps: &[Value], stats: &mut BTreeMap<String, u64>) -> Result<(), 
                         json!([size, n, bytes_json(&dest[..(n as usize).min(dest.len())])])
                     }
                 }
-                "write" => match is.verif_entry_write(&mut energy, handle(&st["h"]), &bytes_of(&st["src"]), st["off"].as_u64().unwrap_or(0) as u32) {
+                "write" => match is.verif_entry_write(&mut energy, eh.real(&st["h"]), &bytes_of(&st["src"]), st["off"].as_u64().unwrap_or(0) as u32) {
                     Ok(v) => dec_u32(v),
                     Err(e) => json!(["trap", e.to_string()]),
                 },
-                "resize" => match is.verif_entry_resize(&mut energy, handle(&st["h"]), st["n"].as_u64().unwrap_or(0) as u32) {
+                "resize" => match is.verif_entry_resize(&mut energy, eh.real(&st["h"]), st["n"].as_u64().unwrap_or(0) as u32) {
                     Ok(v) => dec_u32(v),
                     Err(e) => json!(["trap", e.to_string()]),
                 },
                 other => return Err(Mismatch { step: i, what: format!("unknown action {}", other), exp: Value::Null, got: Value::Null }),
             };
             *stats.entry(format!("{}:{}", a, got[0])).or_default() += 1;
-            if got != st["r"] {
-                return Err(Mismatch { step: i, what: format!("result of {}", a), exp: st["r"].clone(), got });
+            match bound {
+                Some(Err(e)) => return Err(Mismatch { step: i, what: format!("result of {}: {}", a, e), exp: st["r"].clone(), got }),
+                Some(Ok(())) => {}
+                None => {
+                    if got != st["r"] {
+                        return Err(Mismatch { step: i, what: format!("result of {}", a), exp: st["r"].clone(), got });
+                    }
+                }
             }
             let exp = kv_of_spec(&st["m"]);
             let mut clone = is.verif_trie().clone();
